@@ -251,7 +251,10 @@ fn aggregate_cases(r: &mut Rng, n: usize, sink: &mut Sink) {
         let sz = r.below(3);
         let train = gen_train(r, sz, k % 3 != 2);
         let route = gen_route(r, 3, 0.0, 25.0);
-        let b = builder(&train, None, false);
+        let mut b = builder(&train, None, false);
+        // every third train carries a TrainConfig.train_mass override (replaces the cars' summed mass; the locomotives are still added)
+        let ov: Option<f64> = if k % 3 == 1 { Some(r.lrange(2e5, 2e7).floor()) } else { None };
+        b.train_config.train_mass = ov.map(|m| uc::KG * m);
         let made = catch(std::panic::AssertUnwindSafe(|| b.make_set_speed_train_sim_and_parts(&route.network, &route.path, SpeedTrace::new(vec![0.0, 1.0], vec![0.0, 0.0], None), None)));
         let (sim, tr, fbk) = match made { Ok(Ok((s, _, _, tr, fbk))) => (s, tr, fbk), _ => continue };
         let rp = res_params(&tr);
@@ -269,7 +272,8 @@ fn aggregate_cases(r: &mut Rng, n: usize, sink: &mut Sink) {
         // oracle: static mass = cars + locomotives; weight follows in update_res
         let mut fails = vec![];
         let cars_mass: f64 = train.rvs.iter().map(|rv| (rv.mass_static_base.value + rv.mass_freight.value) * train.n_cars[&rv.car_type] as f64).sum();
-        if !close(s.mass_static.value, cars_mass + loco_mass, 1e-12, 0.0) { fails.push(format!("static mass {} != cars {} + locomotives {}", s.mass_static.value, cars_mass, loco_mass)); }
+        let sum_mass = cars_mass; let cars_mass = ov.unwrap_or(sum_mass);
+        if !close(s.mass_static.value, cars_mass + loco_mass, 1e-12, 0.0) { fails.push(format!("static mass {} != cars{} {} + locomotives {}", s.mass_static.value, if ov.is_some() { " (train_mass override)" } else { "" }, cars_mass, loco_mass)); }
         let roll: f64 = train.rvs.iter().map(|rv| rv.rolling_ratio.value * (rv.mass_static_base.value + rv.mass_freight.value) * train.n_cars[&rv.car_type] as f64).sum::<f64>() / cars_mass;
         if !close(rp[1], roll, 1e-12, 0.0) { fails.push(format!("rolling coefficient {} != mass-weighted mean {}", rp[1], roll)); }
         // the other train-level coefficients: per-axle bearing total, mass-weighted Davis-B, summed drag area
@@ -280,10 +284,10 @@ fn aggregate_cases(r: &mut Rng, n: usize, sink: &mut Sink) {
         if !close(rp[2], davis, 1e-12, 1e-15) { fails.push(format!("Davis-B coefficient {} != mass-weighted mean {}", rp[2], davis)); }
         let cda: f64 = train.rvs.iter().map(|rv| rv.cd_area.value * nc(rv)).sum();
         if !close(rp[3], cda, 1e-12, 0.0) { fails.push(format!("drag area {} != sum over all cars {}", rp[3], cda)); }
-        let mut tags = train.tags.clone(); tags.push("result:ok".into());
+        let mut tags = train.tags.clone(); tags.push("result:ok".into()); tags.push(format!("train_mass_override:{}", ov.is_some()));
         sink.put(Case { id: format!("aggregate/{}", k), kind: "aggregate".into(),
-            coq: format!("x_aggregate [{}] {} {}", cars, cf(total as f64), cf(loco_mass)), outcome: Outcome::Ok(o), tags,
-            input: json!({"train": train_json(&train), "loco_mass": fjson(loco_mass)}), oracle_fail: fails, known: vec![], in_domain: true });
+            coq: format!("x_aggregate_ov {} [{}] {} {}", match ov { Some(m) => format!("(Some {})", cf(m)), None => "None".into() }, cars, cf(total as f64), cf(loco_mass)), outcome: Outcome::Ok(o), tags,
+            input: json!({"train": train_json(&train), "loco_mass": fjson(loco_mass), "train_mass_override": ov}), oracle_fail: fails, known: vec![], in_domain: true });
     }
 }
 
